@@ -712,8 +712,7 @@ for n in (1, 2):
       what=f"break add/remove set semantics on {n} breakpoint(s) (a removed breakpoint never pauses; adding twice leaves one)", bounds=f"list length {n}")
 H("C01", "lexer::verif_h::c01_separator_set", LEX, covers=2, functions=["lexer::is_whitespace", "lexer::is_reg_num", "lexer::is_id"],
   what="separator / register-digit / identifier character classes for every char", bounds="complete")
-H("C01", "lexer::verif_h::c01_separator_before_register", LEX, tier="thorough", covers=1, stubs=[FMT, KW], timeout=4000, mem_gb=24,
-  functions=["Cursor::advance_real", "Cursor::advance_token"], what="<separator><r|R><0-7>: every separator, both cases, every register -> the same register token", bounds="3 bytes")
+# (c01_separator_before_register -- <separator><r|R><0-7> through advance_real -- passed 2600 s and 18 GB in the thorough validation run: not registered)
 for nm, what in [("c01_unescape_plain", "no escape"), ("c01_unescape_newline", "backslash-n -> LF"),
                  ("c01_unescape_backslash_n", "escaped backslash followed by n -> backslash, n"),
                  ("c01_unescape_nonascii_escape", "2-byte character before an escape: no slicing inside the character"),
